@@ -638,6 +638,29 @@ pub fn gen_c19(rng: &mut Rng) -> Value {
         set_flav(&mut w, flav(rng));
         steps.push(w);
     }
+    if rng.chance(1, 8) {
+        // the target's spelling goes through a directory symlink and then `..`: the kernel continues from the parent
+        // of what the symlink points to, not from the directory the symlink sits in
+        steps.push(json!({"k":"env","act":"mkdir","path":"$T/store/v1/pkg"}));
+        steps.push(json!({"k":"env","act":"dir_symlink","path":"$T/vend","target": if rng.chance(1, 2) { "$T/store/v1/pkg" } else { "store/v1/pkg" }}));
+        steps.push(json!({"k":"env","act":"write_file","path":"$T/store/v1/t0","val":1}));
+        if rng.chance(1, 2) {
+            // nothing at the textually folded path
+            steps.push(json!({"k":"env","act":"delete","path":"$T/t0"}));
+        }
+        let rel = rng.chance(1, 2);
+        if rel {
+            steps.push(json!({"k":"chdir","path":"$T"}));
+        }
+        let mut st = json!({"k":"api","op":"link_to","entry":*rng.pick(&["fn", "open", "opts"]),"key":0,"target": if rel { "vend/../t0" } else { "$T/vend/../t0" }});
+        set_flav(&mut st, flav(rng));
+        steps.push(st);
+        steps.extend(all_flav_audit(&["metadata", "read", "read_hash"]));
+        steps.push(json!({"k":"chdir","path":"$R"}));
+        let f = flav(rng);
+        steps.push(json!({"k":"audit","bin":f.0,"mode":f.1,"what":["read","reader","read_hash"]}));
+        return scenario("C19", keys, vals, steps, rng);
+    }
     let relative = rng.chance(1, 3);
     let target = if relative {
         let cwd = *rng.pick(&["$T", "$O", "$T/sub"]);
@@ -696,6 +719,20 @@ pub fn gen_c19(rng: &mut Rng) -> Value {
         steps.push(json!({"k":"chdir","path":"$R"}));
     }
     steps.extend(all_flav_audit(&["metadata", "read", "read_hash"]));
+    // "put everything back in its place": an extraction whose destination is the linked file itself
+    if rng.chance(1, 4) {
+        let op = *rng.pick(&["copy", "copy", "copy_unchecked", "copy_unchecked", "hard_link", "reflink"]);
+        let mut x = json!({"k":"api","op":op,"to":"$T/t0"});
+        if rng.chance(1, 2) {
+            x["key"] = json!(0);
+        } else {
+            x["addr"] = json!({"val":0,"algo":"sha256"});
+        }
+        set_flav(&mut x, flav(rng));
+        steps.push(x);
+        let f = flav(rng);
+        steps.push(json!({"k":"audit","bin":f.0,"mode":f.1,"what":["read","read_hash"]}));
+    }
     // removals of a linked entry remove the link, never the target
     if rng.chance(1, 5) {
         let mut rm = match rng.below(3) {
